@@ -25,6 +25,7 @@ from aws_durable_execution_sdk_python.lambda_service import (
     Operation,
     OperationAction,
     OperationStatus,
+    OperationSubType,
     OperationType,
     OperationUpdate,
     StateOutput,
@@ -311,6 +312,7 @@ class ExecutionState:
         Such a context returns its recorded outcome without running its body again, so the
         operations inside it are never visited during replay.
         """
+        child = op
         parent_id = op.parent_id
         seen: set[str] = set()
         while parent_id and parent_id not in seen:
@@ -321,9 +323,20 @@ class ExecutionState:
             if (
                 parent.operation_type is OperationType.CONTEXT
                 and parent.status in self._TERMINAL_STATUSES
-                and not (parent.context_details and parent.context_details.replay_children)
             ):
-                return True
+                if not (
+                    parent.context_details and parent.context_details.replay_children
+                ):
+                    return True
+                # A map/parallel that replays its children only runs the branches that succeeded;
+                # what lies inside a failed or unfinished branch is not visited.
+                if (
+                    child is not op
+                    and parent.sub_type in {OperationSubType.MAP, OperationSubType.PARALLEL}
+                    and child.status is not OperationStatus.SUCCEEDED
+                ):
+                    return True
+            child = parent
             parent_id = parent.parent_id
         return False
 
